@@ -34,6 +34,30 @@ func deleteIfNotModifiedRule(o *Ob) {
 	}
 	held, why := e.HeldAt(del, fn.Params[0], "Mutex", 'W', 0)
 	o.Check(held, "lock", "DeleteIfNotModified deletes without the store mutex: "+why, del)
+	// the store (and with it the aggregation group) is declared destroyed only when it really is empty:
+	// an alert that was kept because it fired again must keep its group alive
+	empty := L("(len(recv.alerts) == 0)", true)
+	for _, w := range e.Writers("am/store.Alerts", "destroyed") {
+		if w.Fn != fn {
+			continue
+		}
+		st, ok := w.Instr.(*ssa.Store)
+		if !ok {
+			continue
+		}
+		o.Site(st, "destroyed := "+e.X(fn, st.Val))
+		if e.X(fn, st.Val) == "true" {
+			o.Guarded(st, "destroy-empty", "marking the store destroyed", empty)
+			o.Guarded(st, "destroy-asked", "marking the store destroyed", L("p1", true))
+			// the emptiness that is tested is the one after the deletions
+			o.Check(!(&Walk{Fn: fn}).After(st).Has(del), "destroy-before-delete", "the store is declared destroyed before the deletions happened", st)
+			for _, in := range AllInstrs(fn) {
+				if isBuiltinCall("len")(in) && e.X(fn, in.(*ssa.Call).Call.Args[0]) == "recv.alerts" {
+					o.Check(!(&Walk{Fn: fn}).After(in).Has(del), "destroy-stale-count", "the emptiness test uses a count taken before the deletions", in)
+				}
+			}
+		}
+	}
 }
 
 func init() {
